@@ -71,7 +71,7 @@ def run(ctx):
     ctx.traces_validated = 2 * ctx.evaluations          # two Do calls per plugin instance, each compared
     ctx.nontrivial = sum(p["nontrivial"] for p in per_plugin.values())
     ctx.exhaustive = not ctx.replay
-    ctx.rule = ("case = (JSON object with unique keys over the names a, b, 'a.b', 'a.b.a', depth <= 3, leaf kinds 1 / \"s\" / "
+    ctx.rule = ("case = (JSON object with unique keys over the names a, b, 'a.b', 'a.b.a', 'b.a', <= 5 members, depth <= 3, leaf kinds 1 / \"s\" / "
                 "null / [] / [{\"a\":1}] / {}; list of 1-3 selectors of length <= 3 over the same names, written with "
                 "escaped dots, short-first / long-first / with a repeat), enumerated exhaustively by TLC per family (%s "
                 "cases); every case is run on the real keep_fields and remove_fields (Start + 2 x Do) and the encoded "
@@ -84,7 +84,7 @@ def run(ctx):
     ctx.assumptions += [
         "key names are non-numeric: insane-json Dig indexes ARRAYS by a decimal path element (remove_fields 'x.0' deletes "
         "element 0 of array x while keep_fields ignores such a path); that addressing mode is not judged here",
-        "unique keys per object (as the property quantifies); objects have at most 4 members, so insane-json's map mode "
+        "unique keys per object (as the property quantifies); objects have at most 5 members, so insane-json's map mode "
         "(> 16 members) is not exercised",
         "selector strings use the documented backslash escape only (the undocumented '..' form of ParseFieldSelector is "
         "transcribed in the spec but not driven)",
